@@ -204,3 +204,34 @@ void xwrite(const void *vbuf, size_t size);
    by priority queue macros. */
 void up_heap(void *root, unsigned size);
 void down_heap(void *root, unsigned size);
+
+
+#ifdef KJN_LBZIP2_VERIF
+/* Verification build: every insertion into a fixed-capacity queue is checked
+   against the capacity given at initialization time. */
+#include "verif_hooks.h"
+
+#undef pqueue_init
+#define pqueue_init(q,n) ((q).root = xmalloc((n) * sizeof(*(q).root)),  \
+                          (void)((q).size = 0),                         \
+                          vh_cap_register(&(q), (n), #q))
+
+#undef enqueue
+#define enqueue(q,e) (vh_cap_check(&(q), (q).size + 1u, #q),    \
+                      (q).root[(q).size] = (e),                 \
+                      up_heap((q).root, (q).size++))
+
+#undef unshift
+#define unshift(q,e) (vh_cap_check2((q).size + 1u, (q).modulus, #q),    \
+                      (q).size++,                                       \
+                      (q).root[(q).head] = (e),                         \
+                      (q).head = min((q).head - 1,                      \
+                                     (q).head - 1 + (q).modulus),       \
+                      (void)0)
+
+#undef push
+#define push(q,e) (vh_cap_check2((q).size + 1u, (q).modulus, #q),       \
+                   (q).size++,                                          \
+                   (q).root[min((q).head + (q).size,                    \
+                                (q).head + (q).size - (q).modulus)] = (e))
+#endif /* KJN_LBZIP2_VERIF */
